@@ -13,7 +13,7 @@ BEGIN, END = "<!-- CATCH-TABLE-BEGIN -->", "<!-- CATCH-TABLE-END -->"
 
 def main():
     rows = []
-    n = caught = 0
+    n = caught = refused = 0
     for sid in sorted(os.listdir(os.path.join(VERIF, "seeded"))):
         mp = os.path.join(VERIF, "seeded", sid, "meta.json")
         if not os.path.exists(mp):
@@ -23,6 +23,9 @@ def main():
         rules = sorted({r for v in c.get("checks_reporting", {}).values() for r in v.get("rules", [])})
         n += 1
         caught += bool(rules)
+        if not rules and c.get("checks_reporting"):
+            refused += 1
+            rules = ["*analysis-error only (exit 2: the check refuses to pass, no clause is named)*"]
         summ = (m.get("summary") or m.get("what") or "").replace("|", "/").replace("\n", " ")
         rows.append(f"| {sid} | {m.get('property', sid.split('-')[0])} | {summ[:150]} | {', '.join(rules) or '**none**'} |")
     bn = ba = 0
@@ -36,7 +39,7 @@ def main():
         if c.get("alarms"):
             ba += 1
             alarms.append(f"{bid} ({', '.join(sorted(r for v in c['alarms'].values() for r in (v.get('rules') or ['analysis-error'])))})")
-    text = [BEGIN, "", f"{n} confirmed breaking changes, {caught} reported by at least one check; {bn} behaviour-preserving refactorings, {ba} with an alarm" + (": " + "; ".join(alarms) if alarms else "") + ".", "",
+    text = [BEGIN, "", f"{n} confirmed breaking changes, {caught} reported as a named violation by at least one check" + (f", {refused} more only as ANALYSIS-ERROR (exit 2)" if refused else "") + f"; {bn} behaviour-preserving refactorings, {ba} with an alarm" + (": " + "; ".join(alarms) if alarms else "") + ".", "",
             "| id | property | change (one line) | reported by |", "|---|---|---|---|"] + rows + ["", END]
     p = os.path.join(VERIF, "DESIGN.md")
     s = open(p).read()
